@@ -1,5 +1,4 @@
-import string
-
+from bardolph.lib.format_fields import field_names
 from bardolph.vm.vm_codes import IoOp, OpCode, Register
 
 from .sub_parser import SubParser
@@ -29,9 +28,8 @@ class IoParser(SubParser):
 
         try:
             num_unnamed = sum(
-                (1 for field in string.Formatter().parse(format_str)
-                 if field[1] is not None
-                 and (len(field[1]) == 0 or field[1].isdecimal())))
+                (1 for name in field_names(format_str)
+                 if name == '' or isinstance(name, int)))
         except ValueError as ex:
             return self.trigger_error(
                 'Bad format specifier "{}": {}'.format(format_str, ex))
